@@ -42,6 +42,15 @@ def pdf_jobs(rng, quick):
         if n in (12, 13, 14, 44, 45):
             add("0" * n)
             add(d + "\x80" + d)
+    # numeric compaction is big-number arithmetic (base 900 <-> base 10, 44 digits per group): every group length with extreme digit values
+    for n in range(1, 49 if quick else 135):
+        add("9" * n, rng.randrange(3))
+        add("".join(rng.choice("89") for _ in range(n)), rng.randrange(3))
+        if n >= 2:
+            add("1" + "0" * (n - 1), rng.randrange(3))
+            add("0" * (n - 1) + "1", rng.randrange(3))
+        if n >= 13:
+            add("x" + "9" * n + "y", rng.randrange(3))
     # byte runs of every length mod 6, alone, after text, before text
     for n in range(1, 14 if quick else 26):
         run = bytes(rng.randrange(128, 256) for _ in range(n))
